@@ -24,7 +24,7 @@ LEVEL_NOTE = ("trusted: the custom translator sites of tools/sites/c08.py + Xval
               "grid), the hand model of broadcasting against the threshold dimension, squeeze, mean and NaN-skipping sums (validated by "
               "correspondence); binary64 rounding of `comparison +- abs_tolerance` is not modelled (dyadic inputs only)")
 TECHNIQUE = "Coq proof over translator-regenerated discretisation/contingency kernels + extracted-model correspondence check"
-SITES = ["C08.modes", "C08.discretise", "C08.maps", "C08.event_tables", "C08.event_manager"]
+SITES = ["C08.modes", "C08.discretise", "C08.maps", "C08.init", "C08.event_tables", "C08.event_manager"]
 RULE = ("kernel: the full grid of 12 mode spellings x tolerances {None,0,1/4,1/2} x data values x thresholds on the dyadic grid k/4 chosen so "
         "that every value is on / within / outside the tolerance of some threshold, plus NaN and +-inf; arrays: 1-3 named dims of size 1-3 in "
         "shuffled dimension and coordinate order, NaN injected with p=0.15, threshold lists of 1-4 values (sorted, tied, unsorted, NaN, scalar), "
@@ -54,10 +54,35 @@ def P():
     return proc
 
 
+def model_ok(ctx):
+    b = getattr(ctx, "build", None) or {}
+    return bool(b.get("driver_ok")) and "C08" not in (b.get("excluded_models") or [])
+
+
+def py_rel(k, x, c, tol):
+    """independent oracle of `x <relation k> c` with absolute tolerance tol >= 0 (within tolerance = equal): 1.0 / 0.0 / nan.
+    x, c: Fraction or float (nan, +-inf allowed); tol: Fraction"""
+    for v in (x, c):
+        if isinstance(v, float) and math.isnan(v):
+            return NAN
+    xi, ci = isinstance(x, float) and math.isinf(x), isinstance(c, float) and math.isinf(c)
+    if xi or ci:
+        # an infinite value is within tolerance of the threshold only if it is the same infinity
+        near = xi and ci and x == c
+        fx, fc = (x if xi else 0.0), (c if ci else 0.0)
+        gt, lt = (not near) and fx > fc, (not near) and fx < fc
+    else:
+        x, c = Fraction(x), Fraction(c)
+        near = abs(x - c) <= tol
+        gt, lt = x > c, x < c
+    r = [gt or near, gt and not near, lt or near, lt and not near, near, not near][k]
+    return 1.0 if r else 0.0
+
+
 # ----------------------------------------------------------------------------------------------
 # kernel grid
 # ----------------------------------------------------------------------------------------------
-def kernel_grid(ctx):
+def kernel_grid(ctx, use_model=True):
     proc = P()
     data_vals = [Fraction(k, 4) for k in range(-6, 7)] + [NAN, INF, -INF]
     thr_vals = [Fraction(-1), Fraction(-1, 4), Fraction(0), Fraction(1, 2), Fraction(1), NAN, INF, -INF]
@@ -86,12 +111,16 @@ def kernel_grid(ctx):
                             continue
                         x = impl[key][i]
                         vals[key] = x
-                        gen, spec = ctx.model("c08_discretise_k", enc_list([enc_num(d), enc_num(c), enc_mode(m), enc_num(tol if tol is not None else 0)]))
-                        if core.is_err(gen) or not core.close(x, core.dec_num(gen)):
-                            ctx.tie_fail("gen_comparative_discretise vs implementation", case, x, gen)
                         finite = not (isinstance(d, float) and math.isinf(d)) and not (isinstance(c, float) and math.isinf(c))
-                        if finite and not core.close(x, core.dec_num(spec)):
-                            ctx.violation("discretised value differs from the relation-with-tolerance specification", case, core.dec_num(spec), x)
+                        exp = py_rel(k, d, c, tol if tol is not None else Fraction(0))
+                        if not core.close(x, exp):
+                            ctx.violation("discretised value differs from `data <relation> threshold` (within tolerance = equal)", case, exp, x)
+                        if use_model:
+                            gen, spec = ctx.model("c08_discretise_k", enc_list([enc_num(d), enc_num(c), enc_mode(m), enc_num(tol if tol is not None else 0)]))
+                            if core.is_err(gen) or not core.close(x, core.dec_num(gen)):
+                                ctx.tie_fail("gen_comparative_discretise vs implementation", case, x, gen)
+                            if finite and not core.close(exp, core.dec_num(spec)):
+                                ctx.tie_fail("proved specification vs the harness oracle", case, exp, spec)
                         isn = (isinstance(d, float) and math.isnan(d)) or (isinstance(c, float) and math.isnan(c))
                         if math.isnan(x) != isn:
                             ctx.violation("result is NaN although no input is NaN / not NaN although one is", case, "nan" if isn else "0/1", x)
@@ -138,12 +167,35 @@ def rand_mode(rng):
     return rng.choice(STR_MODES + OP_MODES)
 
 
-def discretise_arrays(ctx, i):
+def oracle_discretise(ctx, data, ts, scalar, mode, tol, sq, out, desc):
+    """binary_discretise output against the per-cell oracle (valid mode, sorted finite thresholds)"""
+    k = STR_MODES.index(mode) if isinstance(mode, str) else OP_MODES.index(mode)
+    tl = [ts] if scalar else list(ts)
+    squeezed = (scalar or sq) and len(tl) == 1
+    dv = np.asarray(data.values, float)
+    for j, t in enumerate(tl):
+        got = out if squeezed else out.isel(threshold=j)
+        got = np.asarray(got.transpose(*data.dims).values, float)
+        exp = np.array([py_rel(k, float(v) if (np.isnan(v) or np.isinf(v)) else Fraction(float(v)), Fraction(t), Fraction(tol or 0))
+                        for v in dv.ravel()]).reshape(dv.shape)
+        if not np.array_equal(got, exp, equal_nan=True):
+            ctx.violation("binary_discretise differs from `data <relation> threshold` cell by cell", dict(desc, threshold=t), exp.tolist(), got.tolist())
+            return
+    if (not squeezed) and list(np.asarray(out["threshold"].values, float)) != [float(t) for t in tl]:
+        ctx.violation("threshold coordinate of binary_discretise is not the threshold list", desc, tl, out["threshold"].values.tolist())
+
+
+def discretise_arrays(ctx, i, use_model=True):
     proc = P()
     rng = ctx.rng
     names = ["a", "b", "c", "threshold"] if rng.random() < 0.06 else ["a", "b", "c"]
     sizes = gens.rand_sizes(rng, names=names)
     data = gens.rand_da(rng, sizes, den=4, bound=2, nan_p=0.15 if rng.random() < 0.5 else 0.0)
+    r = rng.random()
+    if r < 0.15:      # integer-typed data (thresholds stay fractional)
+        data = gens.rand_da(rng, sizes, values=[-2, -1, 0, 1, 2]).astype("int64")
+    elif r < 0.3:     # single precision data
+        data = data.astype("float32")
     ts, scalar = rand_thresholds(rng)
     mode = rand_mode(rng)
     tol = rng.choice([None, None, 0.0, 0.25, 0.5, 1.0, -0.25])
@@ -155,8 +207,16 @@ def discretise_arrays(ctx, i):
     which = rng.random()
     if which < 0.5:
         impl = core.call_impl(proc.binary_discretise, data, ts, mode, **kw)
-        m = ctx.model("c08_binary_discretise", enc_list(args))
+        m = ctx.model("c08_binary_discretise", enc_list(args)) if use_model else None
         desc["fn"] = "binary_discretise"
+        desc["dtype"] = str(data.dtype)
+        valid_call = (isinstance(mode, str) and mode in STR_MODES or mode in OP_MODES) and (tol is None or tol >= 0) and "threshold" not in sizes \
+            and all(math.isfinite(t) for t in ([ts] if scalar else ts)) and (scalar or list(ts) == sorted(ts))
+        if valid_call:
+            if impl[0] != "ok":
+                ctx.violation("binary_discretise raises on valid arguments", desc, "0/1/nan array", impl[1])
+            else:
+                oracle_discretise(ctx, data, ts, scalar, mode, tol, sq, impl[1], desc)
     else:
         rd, pd = gens.rand_dimspec(rng, [d for d in sizes], allow_bad=True)
         if rd is not None:
@@ -165,17 +225,29 @@ def discretise_arrays(ctx, i):
             kw["preserve_dims"] = pd
         with np.errstate(all="ignore"):
             impl = core.call_impl(proc.binary_discretise_proportion, data, ts, mode, **kw)
-        m = ctx.model("c08_proportion", enc_list(args + [enc_dimspec(rd), enc_dimspec(pd)]))
-        desc.update({"fn": "binary_discretise_proportion", "reduce_dims": rd, "preserve_dims": pd})
-    ok, why = core.compare_result(impl, m)
-    ctx.case(desc, impl[0] == "ok" and bool(np.isfinite(np.asarray(impl[1])).any()))
+        m = ctx.model("c08_proportion", enc_list(args + [enc_dimspec(rd), enc_dimspec(pd)])) if use_model else None
+        desc.update({"fn": "binary_discretise_proportion", "reduce_dims": rd, "preserve_dims": pd, "dtype": str(data.dtype)})
+        # proportion = NaN-skipping mean of binary_discretise over the same dims (relation between two public calls)
+        if impl[0] == "ok":
+            st2, disc = core.call_impl(proc.binary_discretise, data, ts, mode, abs_tolerance=tol, autosqueeze=sq)
+            if st2 == "ok":
+                red = [d for d in data.dims if d not in impl[1].dims]
+                with np.errstate(all="ignore"):
+                    exp = disc.mean(dim=red) if red else disc
+                if not np.allclose(np.asarray(exp.transpose(*impl[1].dims).values, float), np.asarray(impl[1].values, float), rtol=1e-12, atol=0, equal_nan=True):
+                    ctx.violation("proportion is not the mean of the discretised data over the reduced dims", desc,
+                                  np.asarray(exp.values).tolist(), np.asarray(impl[1].values).tolist())
+    ctx.case(desc, impl[0] == "ok" and bool(np.isfinite(np.asarray(impl[1], dtype=float)).any()))
     ctx.count(desc["fn"] + ":" + ("ok" if impl[0] == "ok" else impl[1]))
+    ctx.count("dtype:" + str(data.dtype))
     if i < 2:
         ctx.sample(desc)
-    if not ok:
-        ctx.tie_fail(desc["fn"] + " vs model: " + why, desc, str(impl[1])[:300], str(m)[:300])
+    if use_model:
+        ok, why = core.compare_result(impl, m)
+        if not ok:
+            ctx.tie_fail(desc["fn"] + " vs model: " + why, desc, str(impl[1])[:300], str(m)[:300])
     # comparative_discretise against an array comparison with its own dims
-    if which < 0.25 and "threshold" not in sizes:
+    if use_model and which < 0.25 and "threshold" not in sizes:
         cd = gens.sub_dims(rng, sizes, p_drop=0.5)
         comp = gens.rand_da(rng, sizes, dims=cd, den=4, bound=2, nan_p=0.1)
         impl = core.call_impl(proc.comparative_discretise, data, comp, mode, abs_tolerance=tol)
@@ -219,22 +291,37 @@ def like(b, a):
     return b.sel({d: a[d] for d in a.dims}).transpose(*a.dims)
 
 
-def contingency(ctx, i):
+def contingency(ctx, i, use_model=True):
     from scores.categorical import ThresholdEventOperator
     rng = ctx.rng
     sizes = gens.rand_sizes(rng)
-    fcst = gens.rand_da(rng, sizes, den=4, bound=2, nan_p=0.15 if rng.random() < 0.5 else 0.0)
+    fdims = gens.sub_dims(rng, sizes, p_drop=0.15, keep_at_least=1)
+    fcst = gens.rand_da(rng, sizes, dims=fdims, den=4, bound=2, nan_p=0.15 if rng.random() < 0.5 else 0.0)
     odims = gens.sub_dims(rng, sizes, p_drop=0.2)
     obs = gens.rand_da(rng, sizes, dims=odims, den=4, bound=2, nan_p=0.15 if rng.random() < 0.5 else 0.0)
     if rng.random() < 0.4:
         obs = gens.force_ties(rng, fcst, obs)
+    if rng.random() < 0.2 and fcst.dims:      # a whole slice missing: its kept counts are 0, not NaN
+        d = rng.choice(list(fcst.dims))
+        fcst = fcst.where(fcst[d] != fcst[d].values[rng.randrange(fcst.sizes[d])])
+    # constructor arguments (None = not passed); the per-call arguments default to them
+    ctor_t = rng.choice([None, None, None, 0, 0.0, 0.5, -1.0, 0.0])
+    ctor_op = rng.choice([None, None, None, operator.gt, operator.lt, operator.ge])
     t = rng.choice([None, 0.0, 0.0, 0, -0.5, -2.0, 0.25, 1.0, 0.5, -0.25, 2.0])
+    if ctor_t is not None and rng.random() < 0.6:
+        t = None
     op = rng.choice([None, operator.ge, operator.gt, operator.le, operator.lt, operator.ge, operator.gt, operator.eq, operator.ne])
-    custom = rng.random() < 0.3
-    dt = rng.choice([0.5, -1.0, 0.0]) if custom else 0.001
-    dop = rng.choice([operator.gt, operator.lt]) if custom else operator.ge
-    teo = ThresholdEventOperator(default_event_threshold=dt, default_op_fn=dop) if custom else ThresholdEventOperator()
-    rd, pd = gens.rand_dimspec(rng, list(sizes), allow_bad=True)
+    if ctor_op is not None and rng.random() < 0.5:
+        op = None
+    ckw = {}
+    if ctor_t is not None:
+        ckw["default_event_threshold"] = ctor_t
+    if ctor_op is not None:
+        ckw["default_op_fn"] = ctor_op
+    dt = 0.001 if ctor_t is None else ctor_t          # documented signature defaults: 0.001, operator.ge
+    dop = operator.ge if ctor_op is None else ctor_op
+    teo = ThresholdEventOperator(**ckw)
+    rd, pd = gens.rand_dimspec(rng, sorted(set(fcst.dims) | set(obs.dims)), allow_bad=True)
     kw = {}
     if rd is not None:
         kw["reduce_dims"] = rd
@@ -243,10 +330,11 @@ def contingency(ctx, i):
     which = "tables" if rng.random() < 0.3 else "manager"
     desc = {"fn": "ThresholdEventOperator.make_contingency_manager" if which == "manager" else "ThresholdEventOperator.make_event_tables",
             "fcst": gens.da_repr(fcst), "obs": gens.da_repr(obs), "event_threshold": t, "op_fn": None if op is None else OPNAME[op],
-            "default_event_threshold": dt, "default_op_fn": OPNAME[dop], "reduce_dims": rd, "preserve_dims": pd}
-    m = ctx.model("c08_threshold_operator", enc_list([enc_str(which), enc_num(Fraction(dt) if dt != 0.001 else Fraction(1, 1000)), OPNAME[dop],
+            "constructor": {"default_event_threshold": ctor_t, "default_op_fn": None if ctor_op is None else OPNAME[ctor_op]},
+            "reduce_dims": rd, "preserve_dims": pd}
+    m = ctx.model("c08_threshold_operator", enc_list([enc_str(which), enc_opt(ctor_t, enc_num), "none" if ctor_op is None else OPNAME[ctor_op],
                                                       enc_arr(fcst), enc_arr(obs), enc_opt(t, enc_num), "none" if op is None else OPNAME[op],
-                                                      enc_dimspec(rd), enc_dimspec(pd)]))
+                                                      enc_dimspec(rd), enc_dimspec(pd)])) if use_model else None
     ekw = {"event_threshold": t, "op_fn": op}
     if which == "tables":
         st, ev = core.call_impl(teo.make_event_tables, fcst, obs, **ekw)
@@ -257,12 +345,17 @@ def contingency(ctx, i):
     ctx.case(desc, st == "ok" and bool((~np.isnan(np.asarray(fe.values, float))).any()))
     ctx.count(f"contingency:threshold={'none' if t is None else ('zero' if t == 0 else ('neg' if t < 0 else 'pos'))}")
     ctx.count(f"contingency:op={'none' if op is None else OPNAME[op]}")
+    if t is None and ctor_t is not None:
+        ctx.count("contingency:constructor_default_used" + (":zero" if ctor_t == 0 else ""))
     if i < 2:
         ctx.sample(desc)
     if st != "ok":
         ctx.violation("event operator raises", desc, "event tables", fe)
         return
-    for name, arr, mt in (("fcst_events", fe, m[0][0]), ("obs_events", oe, m[0][1])):
+    for name, arr, k in (("fcst_events", fe, 0), ("obs_events", oe, 1)):
+        if not use_model:
+            break
+        mt = m[0][k]
         ok, why = core.compare_result(("ok", arr.astype(float)), mt)
         if not ok:
             ctx.tie_fail(f"{name} vs model: {why}", desc, str(arr.values.tolist())[:300], str(mt)[:300])
@@ -279,13 +372,15 @@ def contingency(ctx, i):
         from scores.categorical import BinaryContingencyManager
         mgr = BinaryContingencyManager(fe, oe)
     stc, basic = core.call_impl(lambda: mgr.transform(**kw))
-    mc = m[1]
-    if stc == "err" or core.is_err(mc):
+    mc = m[1] if use_model else None
+    if use_model and (stc == "err" or core.is_err(mc)):
         if not (stc == "err" and basic == mc):
             ctx.tie_fail("transform: error behaviour differs from the model", desc, basic if stc == "err" else "counts", str(mc)[:200])
         return
+    if stc == "err":
+        return
     counts = basic.get_counts()
-    for key, mt in zip(COUNT_KEYS, mc):
+    for key, mt in zip(COUNT_KEYS, mc or []):
         ok, why = core.compare_result(("ok", counts[key]), mt)
         if not ok:
             ctx.tie_fail(f"{key} vs model: {why}", desc, str(np.asarray(counts[key].values).tolist())[:300], str(mt)[:300])
@@ -326,7 +421,7 @@ def contingency(ctx, i):
             ctx.count("contingency:additivity_checked")
 
 
-def manager_raw(ctx):
+def manager_raw(ctx, use_model=True):
     """BinaryContingencyManager on given event arrays, values outside {0,1} included"""
     from scores.categorical import BinaryContingencyManager
     rng = ctx.rng
@@ -342,9 +437,31 @@ def manager_raw(ctx):
         kw["preserve_dims"] = pd
     desc = {"fn": "BinaryContingencyManager.transform", "fcst_events": gens.da_repr(fe), "obs_events": gens.da_repr(oe), "reduce_dims": rd, "preserve_dims": pd}
     st, basic = core.call_impl(lambda: BinaryContingencyManager(fe, oe).transform(**kw))
-    mc = ctx.model("c08_manager_counts", enc_list([enc_arr(fe), enc_arr(oe), enc_dimspec(rd), enc_dimspec(pd)]))
+    mc = ctx.model("c08_manager_counts", enc_list([enc_arr(fe), enc_arr(oe), enc_dimspec(rd), enc_dimspec(pd)])) if use_model else None
     ctx.case(desc, st == "ok")
     ctx.count("manager_raw:" + ("ok" if st == "ok" else basic))
+    if st == "ok":
+        # independent oracle: a pair counts in a class iff both events are non-NaN and carry exactly that pattern of 0 / 1
+        c0 = basic.get_counts()
+        keep = set(c0["tp_count"].dims)
+        if (set(fe.dims) | set(oe.dims)) - keep:
+            f, o = xr.broadcast(fe, oe)
+            o = o.transpose(*f.dims)
+            fv, ov = np.asarray(f.values, float), np.asarray(o.values, float)
+            valid = ~np.isnan(fv) & ~np.isnan(ov)
+            axes = tuple(k for k, d in enumerate(f.dims) if d not in keep)
+            kept = [d for d in f.dims if d in keep]
+            pats = {"tp_count": (1, 1), "tn_count": (0, 0), "fp_count": (1, 0), "fn_count": (0, 1)}
+            tot = 0
+            for key, (a, b) in pats.items():
+                e = xr.DataArray((valid & (fv == a) & (ov == b)).sum(axis=axes).astype(float), dims=kept, coords={d: f[d] for d in kept})
+                tot = tot + e
+                if not np.array_equal(np.asarray(like(e, c0[key]).values, float), np.asarray(c0[key].values, float)):
+                    ctx.violation(f"{key} of BinaryContingencyManager differs from direct counting", desc, np.asarray(e.values).tolist(), np.asarray(c0[key].values).tolist())
+            if not np.array_equal(np.asarray(like(tot, c0["total_count"]).values, float), np.asarray(c0["total_count"].values, float)):
+                ctx.violation("total_count differs from tp+tn+fp+fn counted directly", desc, np.asarray(tot.values).tolist(), np.asarray(c0["total_count"].values).tolist())
+    if not use_model:
+        return
     if st == "err" or core.is_err(mc):
         if not (st == "err" and basic == mc):
             ctx.tie_fail("BinaryContingencyManager.transform: error behaviour differs from the model", desc, basic if st == "err" else "counts", str(mc)[:200])
@@ -356,18 +473,27 @@ def manager_raw(ctx):
             ctx.tie_fail(f"{key} vs model: {why}", desc, str(np.asarray(counts[key].values).tolist())[:300], str(mt)[:300])
 
 
-def run(ctx):
-    kernel_grid(ctx)
+def body(ctx, use_model):
+    kernel_grid(ctx, use_model)
     ctx.exhaustive = True    # the 12 spellings x tolerance x value grid is swept completely
     for i in range(ctx.n(250, 3000)):
         if not ctx.time_left():
             break
-        discretise_arrays(ctx, i)
-    for i in range(ctx.n(250, 3000)):
+        discretise_arrays(ctx, i, use_model)
+    for i in range(ctx.n(300, 3000)):
         if not ctx.time_left():
             break
-        contingency(ctx, i)
+        contingency(ctx, i, use_model)
     for i in range(ctx.n(80, 800)):
         if not ctx.time_left():
             break
-        manager_raw(ctx)
+        manager_raw(ctx, use_model)
+
+
+def run(ctx):
+    body(ctx, model_ok(ctx))
+
+
+def run_without_model(ctx):
+    """the property predicates that need no model: implementation against independent oracles and against itself"""
+    body(ctx, False)
